@@ -81,6 +81,8 @@ func registerAll() {
 	reg("L12", "inline/uninline decision table: Array.Storable / OrderedMap.Storable evaluated on the four (inlinable, inlined) states perform exactly the transition and return exactly the representation the state requires; index slabs are never inlinable; data slabs are inlinable only as roots within the caller's limit", ruleL12)
 	reg("L13", "merge only when no sibling can lend, rebalance only when one can (MergeOrRebalanceChildSlab decision edges)", ruleL13)
 
+	reg("L14", "direct-build fast path: newArrayWithElements is called only on the edge where the real summed element size was compared with the slab-size threshold", ruleL14)
+
 	const tCFG = "CFG path rules on go/ssa (must-precede, edge dominance, loop-iteration coverage, error-edge reachability)"
 	propTable["C01"] = &PropSpec{
 		ID:    "C01",
@@ -98,7 +100,7 @@ func registerAll() {
 	}
 	propTable["C05"] = &PropSpec{
 		ID:    "C05",
-		Rules: []string{"L5", "L6", "L9", "L13", "L7"},
+		Rules: []string{"L5", "L6", "L9", "L13", "L14", "L7"},
 		Explanation: "for EVERY slab size t in [minSlabSize, maxSlabSize] (affine-interval abstract interpretation of setThreshold, not a sample): minThreshold is t/2, maxThreshold is 1.5t and fits the 16-bit size fields, two maximal array elements plus the slab prefix fit in t, two maximal map elements plus digests and prefixes fit in t, a maximal key plus an equal value fit the element limit, and no unsigned subtraction underflows; every element is materialised with the limit of its container kind; every mutation path runs the full / underflow decision and refreshes the index data it summarises (sizes, counts, cumulative counts, header copies).",
 		NotDecided: "that split, lend/borrow and merge choose points that keep both sides inside the band (depends on element sizes); sortedness/uniqueness of digests and sibling links (value-level).",
 		Technique:  "affine-interval abstract interpretation (exhaustive over the symbolic slab size), value-flow checks on Storable() limits, must-pass-through path rules",
@@ -189,7 +191,7 @@ func registerAll() {
 	}
 	propTable["C17"] = &PropSpec{
 		ID:    "C17",
-		Rules: []string{"X5", "X6", "R1", "R2"},
+		Rules: []string{"X5", "X6", "R1", "R2", "L14"},
 		Explanation: "for every type with a can-copy/copy pair the predicate is constant false exactly when the operation fails on every path, and non-constant predicates refuse on exactly the receiver state the operation fails on (the rest is delegated to the elements' own pair); every slice/map/pointer field of a copy receives a fresh or cloned value, never one loaded from the source.",
 		NotDecided: "equality of content, validity 'as if built by individual operations' (tail-rebalance arithmetic), byte-array conversions.",
 		Technique:  "return-constant and control-dependence comparison of sibling methods; alias check on stores into the fresh result",
